@@ -171,6 +171,10 @@ class SymH:
     def note(self, txt):
         self.notes.append(txt)
 
+    def prove_lemmas(self):
+        """do not assume the engine's recorded lemmas on this path (the harness proves them as definedness goals)"""
+        self.cx.meta['prove_lemmas'] = True
+
     def stub(self, which, **opts):
         from . import stubs
         self.undo.append(stubs.install(self, which, **opts))
@@ -317,6 +321,9 @@ class ConcH:
         self.notes.append(txt)
 
     dot = staticmethod(SymH.dot)
+
+    def prove_lemmas(self):
+        pass
 
     def expo(self, d):
         return np.exp(d)
